@@ -1,0 +1,47 @@
+//go:build verif
+
+// Package verifhook provides observation points for the model-based
+// verification harness under /verif. It is only active with the `verif` build
+// tag; without it On is false and every call site is dead code.
+package verifhook
+
+import "sync/atomic"
+
+// On reports whether the hooks are compiled in.
+const On = true
+
+// PointFunc receives a site name and site-specific values. It may block (the
+// harness uses that to impose schedules).
+type PointFunc func(site string, kv ...interface{})
+
+var sink atomic.Value // of PointFunc
+
+// Install sets (or, with nil, removes) the function called at every Point.
+func Install(f PointFunc) {
+	if f == nil {
+		f = func(string, ...interface{}) {}
+	}
+	sink.Store(f)
+}
+
+// Point is an observation/linearization point.
+func Point(site string, kv ...interface{}) {
+	if f, ok := sink.Load().(PointFunc); ok && f != nil {
+		f(site, kv...)
+	}
+}
+
+// TryLocker is implemented by sync.Mutex and sync.RWMutex.
+type TryLocker interface {
+	TryLock() bool
+	Unlock()
+}
+
+// Held reports whether l is currently locked by somebody.
+func Held(l TryLocker) bool {
+	if l.TryLock() {
+		l.Unlock()
+		return false
+	}
+	return true
+}
